@@ -25,6 +25,7 @@ type Sorts struct {
 	extra    map[string]bool
 	typeIDs  map[string]int // dynamic type ids for interfaces
 	typeList []types.Type
+	autoOpaque func(n *types.Named) bool
 }
 
 type structInfo struct {
@@ -80,6 +81,13 @@ func (s *Sorts) sortOf(t types.Type) string {
 			s.extra[o] = true
 			return o
 		}
+		// dependency struct types whose fields the repository never touches are opaque
+		if _, isStruct := n.Underlying().(*types.Struct); isStruct && s.autoOpaque != nil && s.autoOpaque(n) {
+			o := "O_" + shortTypeName(n)
+			s.opaque[n.String()] = o
+			s.extra[o] = true
+			return o
+		}
 	}
 	if a, ok := t.(*types.Alias); ok {
 		return s.sortOf(types.Unalias(a))
@@ -129,7 +137,11 @@ func (s *Sorts) structSort(t types.Type, st *types.Struct) string {
 	s.structs[name] = info // break recursion (only via pointers, which are Int)
 	for i := 0; i < st.NumFields(); i++ {
 		f := st.Field(i)
-		info.fields = append(info.fields, fmt.Sprintf("%s_%s", name, sanitize(f.Name())))
+		fname := sanitize(f.Name())
+		if f.Name() == "_" {
+			fname = fmt.Sprintf("blank%d", i)
+		}
+		info.fields = append(info.fields, fmt.Sprintf("%s_%s", name, fname))
 		info.fsorts = append(info.fsorts, s.sortOf(f.Type()))
 	}
 	s.order = append(s.order, name)
@@ -143,6 +155,10 @@ func (s *Sorts) structInfoOf(t types.Type) *structInfo {
 	}
 	if n, ok := t.(*types.Named); ok {
 		if _, op := s.opaque[n.String()]; op {
+			return nil
+		}
+		if s.autoOpaque != nil && s.autoOpaque(n) {
+			s.sortOf(t)
 			return nil
 		}
 	}
